@@ -8,23 +8,23 @@ PROP = dict(
               'driven through the real serializer stack into a simulated sink with seeded buffer sizes, explicit flushes and sink faults; '
               'round-trip oracle through an independent parser (Xerces SAX2), knob-independence, serializer-agreement and sink-fault oracles; ASan/UBSan',
     level_text='Seeded exploration of (result tree, encoding, XML version, cdata-section-elements, serializer, buffer size, transcoder block size, flush placement, sink fault). '
-               'One script is executed under 4-8 configurations: XalanXMLSerializerFactory product (UTF-8, UTF-16 and other-encoding writer families) x 3 knob settings, '
+               'One script is executed under 4-8 configurations: XalanXMLSerializerFactory product (UTF-8, UTF-16 and other-encoding writer families) x 3 knob settings (buffer size, transcoder block size, flush points, content of the two memory units behind each character buffer), '
                'FormatterToXML x 1-2, every fourth run the whole XalanTransformer pipeline (identity-style stylesheet with xsl:output) in callback and stream form, '
                'and in 35% of the runs one configuration again under a sink fault. Oracles: the bytes parse (Xerces SAX2, namespaces on) to exactly the scripted tree; '
                'for trees XML or the encoding cannot represent, an error or a correct round trip; byte-identical output for every (buffer, block, flush) setting; '
-               'both serializers parse to the same tree; a sink fault surfaces as an exception, the accepted bytes are a prefix of the fault-free output, destructors are quiet and a new serializer works. '
+               'wherever the factory product round-trips FormatterToXML gives the same tree; no allocation beyond 24 MiB; a sink fault surfaces as an exception, the accepted bytes are a prefix of the fault-free output, destructors are quiet and a new serializer works. '
                'Sampling, not exhaustive: a clean batch is evidence, not proof.',
     level_note='Trusts: Xerces-C SAX2 parser as the independent reader (uninstrumented system binary); ICU decides which characters an encoding can represent (defines only where an error is an acceptable outcome); '
                'indent="yes", doctype and standalone output are not generated; scripts <= 60 events, <= 3000 UTF-16 units.',
     design_ref='DESIGN.md section 7 (C04), 3.2, 5, 6',
-    runs=dict(quick=40000, thorough=600000),
+    runs=dict(quick=40000, thorough=600000),   # measured on 16 cores: ~650-900 scripts/s; quick ~60 s + ~0.7 s per not-yet-known finding for gate/minimise/replay
     nontrivial_counter=['faults_fired', 'probe:straddle-512', 'probe:explicit-flush'],
     rule='One evaluation = one script of SAX events (startElement+attributes incl. xmlns declarations, characters, cdata, ignorableWhitespace, comment, processingInstruction, endElement, flush) '
          'describing a namespace-well-formed tree, with text/attribute values drawn per script from 1-5 character classes '
          '{ascii, < &, >, quotes, ], TAB, LF, CR, C0 controls, U+0000, C1 controls, NEL, Latin-1, BMP, U+2028, supplementary, lone surrogates, U+FFFE/FFFF} and filler runs sized so that the interesting '
          'character lands within +-4 units of a 512/1024 writer-buffer boundary, of the XalanOutputStream buffer size b or of the transcoder block size t; '
          'encoding from {UTF-8, utf-8, UTF-16, UTF-16LE, UTF-16BE, ISO-8859-1, US-ASCII, windows-1252, Shift_JIS, ISO-8859-2, GB18030, an unknown name}; version 1.0/1.1; cdata-section-elements in 40% of the scripts. '
-         'The script is executed under every configuration of the plan (serializer x (b,t) from {1,2,3,5,16,64,511,512,513,1024,2048/4096} x up to 3 explicit flush points x optional sink fault short/throw/bad/flush-fail at a seeded write/flush ordinal). '
+         'The script is executed under every configuration of the plan (serializer x (b,t) from {1,2,3,5,16,64,511,512,513,1024,2048/4096} x up to 3 explicit flush points x two code units placed behind every character buffer x optional sink fault short/throw/bad/flush-fail at a seeded write/flush ordinal). '
          'distinct_nontrivial = number of distinct run trace hashes (hash over per-configuration output hashes, fault outcomes and violations) among runs in which a sink fault fired, an explicit flush happened mid-document, or a multi-unit character met a 512-unit writer buffer boundary.',
     real=['libxalan-c (rebuilt from /repo working tree, clang -O1, sanitizer-instrumented): XalanXMLSerializerFactory, FormatterToXMLUnicode, XalanUTF8Writer/XalanUTF16Writer/XalanOtherEncodingWriter, FormatterToXML, XalanOutputStreamPrintWriter, XalanOutputStream (buffering + transcoding), XalanTransformer/XSLTEngineImpl (pipeline runs)',
           'Xerces-C 3.2.4 (system binary, not instrumented): transcoders used by XalanOutputStream, SAX2 parser used as the oracle',
@@ -35,7 +35,8 @@ PROP = dict(
                'input streams of pipeline runs (std::istream over in-memory bytes)'],
     assumptions=['the Xerces-C SAX2 reader reports exactly the XML Information Set of the bytes it is given (it shares no code with the serializers under test)',
                  'ICU decides which code points an encoding can represent; this only widens/narrows the set of trees for which an error is accepted instead of a round trip',
-                 'a FormatterListener receives character data with an explicit length and may not read beyond it (buffers passed by the driver are exactly that long)',
+                 'a FormatterListener receives character data with an explicit length and may not let its output depend on what lies behind it (the driver places seeded units such as "]>" there and demands identical output)',
+                 'FormatterToXML is not the xml output method of the engine: it is judged by agreement with the factory product (and by knob independence, sink faults, allocation bound), not by the error-or-round-trip rule',
                  'comment/PI data is legal for the XPath data model (no "--", no trailing "-", no "?>", no leading white space in PI data): the interpreter repairs scripts the way xsl:comment / xsl:processing-instruction do',
                  'indent="no", no doctype, no standalone: indentation is the business of another property'],
     shrink=dict(lists=[['configs'], ['events'], ['cdata_elems'], ['events', '*', 'attrs'], ['events', '*', 'text'], ['events', '*', 'attrs', '*', 'v']],
